@@ -330,20 +330,24 @@ example :
     toN (includePathRange doc inc) = ⟨0, 8, 0, 19⟩ ∧
     covers doc (toN (includePathRange doc inc)) "a😀.journal".toList = true := by decide
 
-/-- Diagnostics: parse errors, analyzer diagnostics (ranges of postings, transactions,
-    commodities and tags — all stored in the tree), include errors. -/
+/-- Diagnostics: parse errors (a token position), analyzer diagnostics (ranges of postings,
+    transactions and commodities, stored in the tree; or tag ranges, computed by parseTags, for
+    which the guard asks that they be UTF-16-column ranges of the text), include errors. -/
 theorem diagnostics_rangeOK_partial (utf16 : Bool) (doc : Txt) (j : Journal)
     (perrs : List ParseError) (an load : List Rng)
     (ht : TreePositionsSound (unitOf utf16) doc j = true)
     (hp : ∀ e ∈ perrs, rngSound u16w doc ⟨e.pos, e.pos⟩ = true ∧ rngSmall ⟨e.pos, e.pos⟩ = true)
-    (ha : ∀ r ∈ an, r ∈ nodeRanges j ∧ convGuard utf16 doc r = true)
+    (ha : ∀ r ∈ an, (r ∈ nodeRanges j ∧ convGuard utf16 doc r = true) ∨
+                    (rngSound u16w doc r = true ∧ rngSmall r = true))
     (hl : ∀ r ∈ load, r ∈ nodeRanges j ∧ convGuard utf16 doc r = true) :
     ∀ x ∈ diagnostics perrs an load, rangeOK doc (toN x) = true := by
   intro x hx
   simp only [diagnostics, List.mem_append, List.mem_map] at hx
   rcases hx with (⟨e, he, rfl⟩ | ⟨r, hr, rfl⟩) | ⟨r, hr, rfl⟩
   · exact conv_rangeOK (r := ⟨e.pos, e.pos⟩) (hp e he).1 (hp e he).2
-  · exact node_rangeOK ht (ha r hr).1 (ha r hr).2
+  · rcases ha r hr with h | h
+    · exact node_rangeOK ht h.1 h.2
+    · exact conv_rangeOK h.1 h.2
   · have h := node_rangeOK ht (hl r hr).1 (hl r hr).2
     -- `uint32(max(0, x-1))` and `uint32(x-1)` agree on x ≥ 1
     have hz : ∀ n, 1 ≤ n → m1z n = m1 n := by
